@@ -768,6 +768,17 @@ func TokenOperatorRule(w *World, r *Result, rule string) {
 		var opVal ssa.Value
 		for _, b := range fn.Blocks {
 			for _, ins := range b.Instrs {
+				// … or hands it to a helper of the product that builds the operation
+				if hc, isCall := ins.(*ssa.Call); isCall {
+					if callee := hc.Call.StaticCallee(); callee != nil && w.IsProduct(pkgOf(callee)) && (constructsNode(callee, "BinaryOperation") || constructsNode(callee, "VariableAssignment")) {
+						for _, a := range hc.Call.Args {
+							if (isNamed(a.Type(), "BinaryOperator") || isString(a.Type())) && tokenDerived(a) {
+								opVal = a
+							}
+						}
+					}
+					continue
+				}
 				st, ok := ins.(*ssa.Store)
 				if !ok {
 					continue
